@@ -234,8 +234,188 @@ def zipper_section(ctx):
     ctx.trust('zip axiom: the result of zipper is zip(*sequences): min(len) tuples, the k-th holding the k-th element of every sequence')
 
 
+# ================================================================================================ _item_by_i / _item_by_key / loops._wrapped
+def item_by_section(ctx):
+    """_item_by_i(value, i, n) and _item_by_key(value, key, keys): a companion of the same length / with the same keys is matched element by element,
+    a non-container is broadcast; a list / tuple of another length (dict with other keys) is mapped element-wise by the same function - which is where
+    the recorded finding C19:lift:value:unmatched-companion-holding-a-matching-container lives (designed recursion, stated exactly, not hidden)."""
+    from pyvc.th_cont import Lift, IBI, IBK, TYPEOFV, DHAS, DGET, SK, seq_type
+    m = ctx.mod('_loop')
+    v = Const('VALUE', Val)
+    i, n, k = Ints('I N K')
+    wit = dict(site=IntVal(0))
+    # ---- _item_by_i
+    fn = m.func('_item_by_i')
+    lift = Lift(by_contract=('_item_by_i',))
+    ex = Exec(m, [lift, Conts(), TypePreds()], inline={'_item_by_i': (m, fn)}, name='_item_by_i')
+    st = State()
+    st.pc += [LEN(SEQ(v)) >= 0, 0 <= i, i < n]
+    outs = ex.run_function(st, '_item_by_i', [CV(v), I(i), I(n)], {})
+    ctx.absorb(ex)
+    ctx.record_function(m, '_item_by_i', fn, ex.stmts_executed, excluded=['DataFrame / ndarray / Series branches: path precondition "no value is a pandas / numpy object"'])
+    islt = Or(TAG(v) == T_LIST, TAG(v) == T_TUPLE)
+    seen = set()
+    for o in outs:
+        hy = ex.facts + o.st.pc
+        if o.kind != 'return':
+            ctx.post('_item_by_i.never_raises.%s' % o.val, hy, BoolVal(False), kind='safety', witness=wit, replay=rp('item_by_i'))
+            continue
+        r = o.val
+        if r.kind == 'mapped':
+            seen.add('mapped')
+            s2 = o.st.fork()
+            el = r.at(s2, k)
+            hk = ex.facts + s2.pc
+            ctx.post('_item_by_i.other_length.keeps_type_and_length', hy, And(islt, LEN(SEQ(v)) != n, r.typ == TYPEOFV(v), r.n == LEN(SEQ(v))), witness=wit, replay=rp('item_by_i'))
+            ctx.post('_item_by_i.other_length.maps_every_element_by_the_same_function', hk + [0 <= k, k < r.n], val_of(el) == IBI(VA(SEQ(v), k), i, n),
+                     witness=wit, replay=rp('item_by_i'))
+        elif r.kind == 'cv':
+            seen.add('cv')
+            ctx.post('_item_by_i.same_length_is_matched_by_index', hy + [islt, LEN(SEQ(v)) == n], r.t == VA(SEQ(v), i), witness=wit, replay=rp('item_by_i'))
+            ctx.post('_item_by_i.non_container_is_broadcast', hy + [Not(islt)], r.t == v, witness=wit, replay=rp('item_by_i'))
+            ctx.post('_item_by_i.value_path_only_for_matched_or_non_container', hy, Or(Not(islt), LEN(SEQ(v)) == n), witness=wit, replay=rp('item_by_i'))
+        else:
+            raise OutOfSubset('_item_by_i returns a %s' % r.kind)
+    if seen != {'mapped', 'cv'}:
+        raise OutOfSubset('_item_by_i: expected the matched / broadcast paths and the element-wise path, found %s' % sorted(seen))
+    # ---- _item_by_key (called by loops._wrapped without an index)
+    fn = m.func('_item_by_key')
+    key, d0 = Const('KEY', Val), Const('DICT0', Val)
+    lift = Lift(by_contract=('_item_by_key',))
+    ex = Exec(m, [lift, Conts(), TypePreds()], inline={'_item_by_key': (m, fn)}, name='_item_by_key')
+    st = State()
+    st.pc += [LEN(SEQ(v)) >= 0, DHAS(d0, key),
+              Implies(SK(v) == SK(d0), DHAS(v, key))]          # equal sorted key lists: same keys (instance of the model axiom for the key at hand)
+    outs = ex.run_function(st, '_item_by_key', [CV(v), CV(key), SV('sortedkeys', SK(d0)), NONE], {})
+    ctx.absorb(ex)
+    ctx.record_function(m, '_item_by_key', fn, ex.stmts_executed, excluded=['Series / DataFrame / ndarray branches: path precondition "no value is a pandas / numpy object"',
+                                                                           'positional index i given (only the DataFrame branch of _wrapped passes one)'])
+    seen = set()
+    for o in outs:
+        hy = ex.facts + o.st.pc
+        if o.kind != 'return':
+            ctx.post('_item_by_key.never_raises.%s' % o.val, hy, BoolVal(False), kind='safety', witness=wit, replay=rp('item_by_key'))
+            continue
+        r = o.val
+        if r.kind == 'dictmapped':
+            seen.add('mapped')
+            s2 = o.st.fork()
+            kv, el, pend = r.at(s2, k)
+            hk = ex.facts + s2.pc
+            ctx.post('_item_by_key.other_keys.keeps_type_and_keys', hy, And(TAG(v) == T_DICT, SK(v) != SK(d0), r.typ == TYPEOFV(v), r.n == LEN(SEQ(v))), witness=wit, replay=rp('item_by_key'))
+            ctx.post('_item_by_key.other_keys.maps_every_value_by_the_same_function', hk + [0 <= k, k < r.n],
+                     And(val_of(kv) == VA(SEQ(v), k), val_of(el) == IBK(DGET(v, VA(SEQ(v), k)), key, SK(d0))), witness=wit, replay=rp('item_by_key'))
+        elif r.kind == 'cv':
+            seen.add('cv')
+            ctx.post('_item_by_key.same_keys_is_matched_by_key', hy + [TAG(v) == T_DICT, SK(v) == SK(d0)], r.t == DGET(v, key), witness=wit, replay=rp('item_by_key'))
+            ctx.post('_item_by_key.non_dict_is_broadcast', hy + [TAG(v) != T_DICT], r.t == v, witness=wit, replay=rp('item_by_key'))
+            ctx.post('_item_by_key.value_path_only_for_matched_or_non_dict', hy, Or(TAG(v) != T_DICT, SK(v) == SK(d0)), witness=wit, replay=rp('item_by_key'))
+        else:
+            raise OutOfSubset('_item_by_key returns a %s' % r.kind)
+    if seen != {'mapped', 'cv'}:
+        raise OutOfSubset('_item_by_key: expected the matched / broadcast paths and the value-wise path, found %s' % sorted(seen))
+    ctx.trust('model axiom: dicts whose sorted key lists are equal have the same keys (used for the key at hand)')
+
+
+def wrapped_section(ctx):
+    """loops._wrapped(arg, args, kwargs) for dict / list / tuple / leaf: the result has the class of arg and its keys / length, and the element under a key /
+    at an index is the recursive result on (that element, companions selected by key / index); a leaf is function(arg, *args, **kwargs)."""
+    from pyvc.th_cont import (Lift, Args, Kw, ALEN, AAT, KWHAS, KWGET, TYPEOFV, INTYPES, ISINSTV, DHAS, DGET, SK, DEPTHV, IBI, IBK, WRAP, APPLY)
+    m = ctx.mod('_loop')
+    fn = m.func('loops._wrapped')
+    arg, ARGS, KWS = Const('ARG', Val), Const('ARGS', Args), Const('KWS', Kw)
+    NA = ALEN(ARGS)
+    q, J = Ints('Q J')
+    kk = Const('KK', Val)
+    wit = dict(site=IntVal(0))
+    lift = Lift(root=arg)
+    ex = Exec(m, [lift, Conts(), TypePreds()], inline={'loops._wrapped': (m, fn)}, name='_wrapped')
+    st = State()
+    st.pc += [NA >= 0, LEN(SEQ(arg)) >= 0]
+    args_sv = SV('cvs', None, n=NA, at=lambda s_, j_: CV(AAT(ARGS, j_)))
+    outs = ex.run_function(st, 'loops._wrapped', [SV('obj', None, cls='loops'), CV(arg), args_sv, SV('kwmap', KWS)], {})
+    ctx.absorb(ex)
+    ctx.record_function(m, 'loops._wrapped', fn, ex.stmts_executed,
+                        excluded=['DataFrame / Series / ndarray branches: path precondition "no value is a pandas / numpy object"'])
+    seen = set()
+
+    def last_call(name, since):
+        for c in reversed(lift.calls[since:]):
+            if c[0] == name:
+                return c
+        raise OutOfSubset('no call of %s recorded' % name)
+    for o in outs:
+        hy = ex.facts + o.st.pc
+        if o.kind != 'return':
+            ctx.post('_wrapped.never_raises.%s' % o.val, hy, BoolVal(False), kind='safety', witness=wit, replay=rp('wrapped'))
+            continue
+        r = o.val
+        if r.kind == 'dictmapped':
+            seen.add('dict')
+            s2 = o.st.fork()
+            mark = len(lift.calls)
+            kv, el, pend = r.at(s2, J)
+            hj = ex.facts + s2.pc + [0 <= J, J < r.n]
+            keyJ = VA(SEQ(arg), J)
+            _, cst, c = last_call('_wrapped', mark)
+            ctx.post('_wrapped.dict.result_has_the_class_and_keys_of_arg', hy, And(TAG(arg) == T_DICT, r.typ == TYPEOFV(arg), r.src == arg, r.n == LEN(SEQ(arg))), witness=wit, replay=rp('wrapped'))
+            ctx.post('_wrapped.dict.only_dicts_of_a_lifted_class_are_mapped', hy, INTYPES(TYPEOFV(arg)), witness=wit, replay=rp('wrapped'))
+            ctx.post('_wrapped.dict.keys_in_order', hj, val_of(kv) == keyJ, witness=wit, replay=rp('wrapped'))
+            ctx.post('_wrapped.dict.value_is_recursive_result_on_the_value', hj, And(val_of(el) == WRAP(DGET(arg, keyJ), c['A'], c['K'])), witness=wit, replay=rp('wrapped'))
+            ctx.post('_wrapped.dict.positional_companions_selected_by_key', hj + [0 <= q, q < NA],
+                     And(ALEN(c['A']) == NA, AAT(c['A'], q) == IBK(AAT(ARGS, q), keyJ, SK(arg))), witness=wit, replay=rp('wrapped'))
+            ctx.post('_wrapped.dict.keyword_companions_selected_by_key', hj,
+                     And(KWHAS(c['K'], kk) == KWHAS(KWS, kk), Implies(KWHAS(KWS, kk), KWGET(c['K'], kk) == IBK(KWGET(KWS, kk), keyJ, SK(arg)))), witness=wit, replay=rp('wrapped'))
+            for p_ in pend:
+                ctx.post('_wrapped.dict.element_never_raises.%s' % p_.val, ex.facts + p_.st.pc + [0 <= J, J < r.n], BoolVal(False), kind='safety', witness=wit, replay=rp('wrapped'))
+        elif r.kind == 'mapped':
+            seen.add('list')
+            s2 = o.st.fork()
+            mark = len(lift.calls)
+            el = r.at(s2, J)
+            hj = ex.facts + s2.pc + [0 <= J, J < r.n]
+            _, cst, c = last_call('_wrapped', mark)
+            nn = LEN(SEQ(arg))
+            ctx.post('_wrapped.list.result_has_the_class_and_length_of_arg', hy, And(Or(TAG(arg) == T_LIST, TAG(arg) == T_TUPLE), r.typ == TYPEOFV(arg), r.n == nn), witness=wit, replay=rp('wrapped'))
+            ctx.post('_wrapped.list.only_instances_of_a_lifted_class_are_mapped', hy, And(ISINSTV(arg), TAG(arg) != T_DICT), witness=wit, replay=rp('wrapped'))
+            ctx.post('_wrapped.list.element_is_recursive_result_on_the_element', hj, val_of(el) == WRAP(VA(SEQ(arg), J), c['A'], c['K']), witness=wit, replay=rp('wrapped'))
+            ctx.post('_wrapped.list.positional_companions_selected_by_index', hj + [0 <= q, q < NA],
+                     And(ALEN(c['A']) == NA, AAT(c['A'], q) == IBI(AAT(ARGS, q), J, nn)), witness=wit, replay=rp('wrapped'))
+            ctx.post('_wrapped.list.keyword_companions_selected_by_index', hj,
+                     And(KWHAS(c['K'], kk) == KWHAS(KWS, kk), Implies(KWHAS(KWS, kk), KWGET(c['K'], kk) == IBI(KWGET(KWS, kk), J, nn))), witness=wit, replay=rp('wrapped'))
+        elif r.kind == 'cv':
+            seen.add('leaf')
+            _, cst, c = last_call('function', 0)
+            ctx.post('_wrapped.leaf.only_for_non_containers', hy, Not(Or(And(TAG(arg) == T_DICT, INTYPES(TYPEOFV(arg))), And(ISINSTV(arg), TAG(arg) != T_DICT))), witness=wit, replay=rp('wrapped'))
+            ctx.post('_wrapped.leaf.is_the_function_applied_to_arg_and_all_companions', hy + [0 <= q, q < NA],
+                     And(r.t == APPLY(arg, c['A'], c['K']), ALEN(c['A']) == NA, AAT(c['A'], q) == AAT(ARGS, q), c['K'] == KWS), witness=wit, replay=rp('wrapped'))
+        else:
+            raise OutOfSubset('loops._wrapped returns a %s' % r.kind)
+    if seen != {'dict', 'list', 'leaf'}:
+        raise OutOfSubset('loops._wrapped: expected dict, list / tuple and leaf paths, found %s' % sorted(seen))
+    ctx.cover('_wrapped.list_path_reachable', [ISINSTV(arg), TAG(arg) == T_LIST, LEN(SEQ(arg)) == 2, NA == 1])
+    ctx.trust('WRAP(arg, args, kwargs) names the result of loops._wrapped; by structural induction on the nesting depth the obligations above give: same shape and '
+              'container classes, leaves = function(leaf, companions selected along the path)')
+
+
+def attach_replays(ctx):
+    """obligations generated inside the executor (measure decrease, preconditions of axioms, safety) get the native re-check of their section"""
+    kinds = (('_wrapped.', 'wrapped'), ('_item_by_i.', 'item_by_i'), ('_item_by_key.', 'item_by_key'), ('zipper.', 'zipper'), ('lens.', 'lens'),
+             ('as_list.', 'as_list'), ('as_tuple.', 'as_list'))
+    for ob in ctx.obligations:
+        short = ob.name[len(PROP) + 1:]
+        for prefix, kind in kinds:
+            if short.startswith(prefix) and not ob.witness:
+                ob.witness = dict(site=IntVal(0))
+                ob.meta['replay'] = (lambda model, kind=kind, nm=('as_tuple' if short.startswith('as_tuple') else 'as_list'): dict(kind=kind, name=nm))
+                break
+
+
 def build(ctx):
     frame_section(ctx)
-    ctx.guarded('zipper', lambda: zipper_section(ctx))
     ctx.guarded('as_list', lambda: aslist_section(ctx))
     ctx.guarded('lens', lambda: lens_section(ctx))
+    ctx.guarded('zipper', lambda: zipper_section(ctx))
+    ctx.guarded('_item_by', lambda: item_by_section(ctx))
+    ctx.guarded('_wrapped', lambda: wrapped_section(ctx))
+    attach_replays(ctx)
